@@ -8,6 +8,7 @@ import BqVerif.Proofs.QasmInline
 import BqVerif.Proofs.QasmPrintParse
 import BqVerif.Proofs.QasmWitness
 import BqVerif.Generated.QasmTable
+import BqVerif.Proofs.QasmTableChecks
 /-! # C17 — OpenQASM 2 import/export preserves the program and agrees with Qiskit
 
 The theorems are about the Lean model of the reader/writer (`BqVerif.Model.Qasm*`), which the
@@ -333,9 +334,6 @@ theorem C17_idlist_witness :
     argIndices [("q", 1), ("r", 1)] ⟨"q", none⟩ = some [0] ∧
     argIndices [("q", 1), ("r", 1)] ⟨"r", none⟩ = some [1] := by decide
 
-/-- one `h` on qubit 0 of a one-qubit circuit -/
-def hOnQ0 : Option (Nat × List (String × List Nat × List Int)) := some (1, [("HGate", [0], [])])
-
 /-- `if (c == 1) h q[0];` is read exactly like `h q[0];`: the gate is applied. -/
 theorem C17_if_witness :
     (decodeToks intArith tinyTable (hdrToks ++ qregToks "q" 1 ++
@@ -385,12 +383,6 @@ example : ReadsAll intArith tinyTable
 
 /-! ## C17_gate_table — (B): the live table, regenerated on every run -/
 
-/-- declared arities = the gate object's own -/
-def arityOk (b : BuiltinDef) : Bool := b.np == b.gnp && b.nv == b.gnq
-
-/-- table keys whose row is known to be wrong on the unchanged tree -/
-def knownBadRows : List String := ["pxz"]
-
 /-- Every row of `gate_defs` (except the known bad one) declares the arities of its gate, so
 `Operation(gate, location, params)` accepts what the arity checks of `gate` let through. -/
 theorem C17_gate_table_arity_partial :
@@ -415,14 +407,6 @@ theorem C17_gate_table_row_sound {V : Type} (A : Arith V) (b : BuiltinDef) (h : 
       | cons a as => simp
     · simp [h']
   simp [h1, hps, hloc, hnd, h.1, h.2]
-
-/-- a library gate is readable under its own spelling: some row has that key, the arities of
-the spelling (`extra` = parameters written inside the spelling, as in `rxx(pi/2)`) and is
-arity-correct -/
-def readable (g : LibGate) : Bool :=
-  gateDefs.any fun b => b.key == g.base && b.np == g.np + g.extra && b.nv == g.nq && arityOk b
-
-def knownUnreadable : List String := ["pxz", "st", "diag", "mpry", "mprz"]
 
 /-- Every library gate that is written through the table (no definition emitted) is readable
 under the spelling the writer uses — except the known ones. -/
